@@ -19,6 +19,11 @@ type HeaderPlan struct {
 	Checkpoint []int32 // heights on the trunk that become hard-coded checkpoints
 	StaleAt    int     // step index at which the clock jumps +30h (0 = never)
 	DeepFork   bool    // wrap session: long trunk, fork beyond the in-memory window
+	// LegacyAt: step index at which the hash->height index entries written so
+	// far are moved to where releases before the prefix sub-buckets kept them
+	// (the root bucket of the index), i.e. the database of an upgraded
+	// installation (0 = never).
+	LegacyAt int
 }
 
 // PlanFromSeed derives a plan from a seed (pure function).
@@ -47,6 +52,9 @@ func PlanFromSeed(seed int64, idx int) HeaderPlan {
 	}
 	if r.Intn(6) == 0 {
 		p.StaleAt = 5 + r.Intn(p.Steps)
+	}
+	if r.Intn(4) == 0 {
+		p.LegacyAt = 3 + r.Intn(p.Steps/2)
 	}
 	return p
 }
@@ -84,6 +92,9 @@ type headerSession struct {
 	// generator's intent) should not have adopted; "orphan" batches build on them.
 	sideTips []*chaingen.Node
 	lastBad  []*chaingen.Node // valid prefix of the previous ext-bad batch
+	// abandoned: tips of branches the client HAD stored and then left in a
+	// reorganisation; "fork-return" batches offer such a branch again, extended.
+	abandoned []*chaingen.Node
 	onStep   func(s *Session, st *StepObs)
 	lastSt   *StepObs
 }
@@ -92,6 +103,14 @@ type headerSession struct {
 func (hs *headerSession) done(st *StepObs, err error) error {
 	hs.lastSt = st
 	if err == nil && st != nil {
+		if n, m := len(st.Pre), len(st.Post); n > 1 && m > 0 {
+			pt := st.Pre[n-1].BlockHash()
+			if n > m || st.Post[n-1].BlockHash() != pt {
+				if nd := hs.s.G.Lookup(pt); nd != nil && nd.ChainValid {
+					hs.abandoned = append(hs.abandoned, nd)
+				}
+			}
+		}
 		hs.onStep(hs.s, st)
 	}
 	return err
@@ -149,6 +168,17 @@ func RunHeaderSession(plan HeaderPlan, onStep func(s *Session, st *StepObs),
 			s.Clock.Set(now)
 			g.Now = now
 			s.note("clock +30h")
+		}
+		if plan.LegacyAt != 0 && step == plan.LegacyAt {
+			chain, err := s.ReadBlockChain()
+			if err != nil {
+				return s, err
+			}
+			n, err := s.Stores.LegacyIndex(hashesOf(chain))
+			if err != nil {
+				return s, err
+			}
+			s.note("index entries moved to the legacy location: %d", n)
 		}
 		t := s.TipNode()
 		if t == nil {
@@ -274,6 +304,34 @@ func (hs *headerSession) step(t *chaingen.Node) error {
 		run := hs.honestRun(t, 3)
 		run[1], run[2] = run[2], run[1]
 		return hs.send("shuffled", pi, run)
+
+	case k >= 72 && k < 80 && len(hs.abandoned) > 0:
+		// Back to a branch the client stored once and then left: the peer
+		// serves everything after the fork point, i.e. the old blocks of that
+		// branch again, followed by new ones that make it the better chain.
+		a := hs.abandoned[r.Intn(len(hs.abandoned))]
+		if r.Intn(2) == 0 {
+			a = hs.abandoned[len(hs.abandoned)-1]
+		}
+		f := a
+		for f != nil && t.Ancestor(f.Height) != f {
+			f = f.Parent
+		}
+		if f == nil || f == a {
+			return hs.send("ext", pi, hs.honestRun(t, 1))
+		}
+		L := int(t.Height-a.Height) + 1 + r.Intn(3)
+		if L < 1 {
+			L = 1 + r.Intn(2)
+		}
+		ext := g.Extend(a, L, hs.randPace())
+		old := a.Path()[f.Height+1:]
+		if r.Intn(4) == 0 && len(old) > 1 { // the message starts in the middle of the old part
+			old = old[r.Intn(len(old)):]
+		}
+		batch := append(append([]*chaingen.Node{}, old...), ext...)
+		hs.sideTips = append(hs.sideTips, ext[len(ext)-1])
+		return hs.send("fork-return", pi, batch)
 
 	case k < 80: // fork
 		if t.Height < 1 {
